@@ -1,6 +1,7 @@
 import Swat4.Drv.Common
 import Swat4.Drv.Store
 import Swat4.Model.Heartbeat
+import Swat4.Drv.UCRun
 /-!
 # Driver helpers shared by the reporter properties C04, C05, C06
 
@@ -27,6 +28,8 @@ def parseIp (s : String) : Option Nat :=
 inductive Op where
   | dg (ip port : Nat) (payload : Bytes)
   | adv (ns : Nat)
+  /-- a use case of another component run to completion in between (a probe outcome, a cleanup, …): `ucops.Client` spec -/
+  | uc (spec : USpec)
 
 def splitOps : List String → List (List String)
   | [] => [[]]
@@ -44,6 +47,7 @@ def parseOp : List String → Option Op
   | ["adv", ns] => do
     let ns ← nat? ns
     pure (.adv ns)
+  | ["uc", spec] => (parseSpec spec).map .uc
   | _ => none
 
 def parseOps (args : List String) : Option (List Op) := (splitOps args).mapM parseOp
@@ -68,41 +72,54 @@ structure StepRec where
   after : AbsState             -- model state after
   outcome : Outcome            -- model outcome
   implOutcome : String
+  /-- a use case run before this datagram (an `uc` op) on which model and implementation disagreed -/
+  ucDiff : Option String := none
   implBefore : String          -- implementation's dump before / after (joined)
   implAfter : String
   modelBefore : String
   modelAfter : String
 
 /-- run the model over the ops, pairing datagrams with the output tokens -/
-def runOps : List Op → List String → AbsState → Int → String → String → Option (List StepRec)
-  | [], [], _, _, _, _ => some []
-  | [], _ :: _, _, _, _, _ => none
-  | .adv ns :: ops, out, st, now, implPrev, modelPrev => runOps ops out st (now + ns) implPrev modelPrev
-  | .dg ip port payload :: ops, o :: d :: out, st, now, implPrev, modelPrev =>
+def runOps : List Op → List String → AbsState → Int → String → String → Option String → Option (List StepRec)
+  | [], [], _, _, _, _, _ => some []
+  | [], _ :: _, _, _, _, _, _ => none
+  | .adv ns :: ops, out, st, now, implPrev, modelPrev, pend => runOps ops out st (now + ns) implPrev modelPrev pend
+  | .uc spec :: ops, o :: d :: out, st, now, implPrev, modelPrev, pend =>
+    let (st', r) := (spec.prog { revivalRetries := 2, refreshRetries := 4 } fun _ => 0).run st now
+    let implAfter := if d = "=" then implPrev else d
+    let modelAfter := joinDump (dumpState st')
+    let diff := if r == o && implAfter == modelAfter then none
+      else some s!"uc-step: model-result={r} impl-result={o.take 80} model-dump={modelAfter}"
+    runOps ops out st' now implAfter modelAfter (pend <|> diff)
+  | .uc _ :: _, _, _, _, _, _, _ => none
+  | .dg ip port payload :: ops, o :: d :: out, st, now, implPrev, modelPrev, pend =>
     let (st', oc) := dispatch cfg st ip port payload now
     let implAfter := if d = "=" then implPrev else d
     let modelAfter := joinDump (dumpState st')
-    match runOps ops out st' now implAfter modelAfter with
+    match runOps ops out st' now implAfter modelAfter none with
     | none => none
-    | some recs => some (⟨⟨ip, port, payload, now⟩, st, st', oc, o, implPrev, implAfter, modelPrev, modelAfter⟩ :: recs)
-  | .dg _ _ _ :: _, _, _, _, _, _ => none
+    | some recs => some ({ dg := ⟨ip, port, payload, now⟩, before := st, after := st', outcome := oc, implOutcome := o, ucDiff := pend,
+                           implBefore := implPrev, implAfter := implAfter, modelBefore := modelPrev, modelAfter := modelAfter } :: recs)
+  | .dg _ _ _ :: _, _, _, _, _, _, _ => none
 
 def records (args out : List String) : Option (List StepRec) :=
   match args with
   | "hist" :: rest =>
     match parseOps rest with
-    | some ops => runOps ops out {} epochNs "-" "-"
+    | some ops => runOps ops out {} epochNs "-" "-" none
     | none => none
   | _ => none
 
-def StepRec.same (r : StepRec) : Bool := sameOutcome r.implOutcome r.outcome && r.implAfter == r.modelAfter
+def StepRec.same (r : StepRec) : Bool := r.ucDiff.isNone && sameOutcome r.implOutcome r.outcome && r.implAfter == r.modelAfter
 
 /-- index and description of the first step where model and implementation differ -/
 def firstDiff : List StepRec → Nat → Option String
   | [], _ => none
   | r :: rs, i =>
     if r.same then firstDiff rs (i + 1)
-    else some s!"step={i} model-outcome={renderOutcome r.outcome} impl-outcome={r.implOutcome.take 80} model-dump={r.modelAfter}"
+    else match r.ucDiff with
+      | some d => some s!"before-step={i} {d}"
+      | none => some s!"step={i} model-outcome={renderOutcome r.outcome} impl-outcome={r.implOutcome.take 80} model-dump={r.modelAfter}"
 
 /-- split a joined dump into its lines -/
 def dumpLines (d : String) : List String := if d = "-" then [] else d.splitOn ";"
